@@ -3,5 +3,6 @@ pub mod corpus;
 pub mod decode;
 pub mod gen;
 pub mod json;
+pub mod macrodoc;
 pub mod rng;
 pub mod rval;
